@@ -90,7 +90,8 @@ struct Acc {
 
 fn utf8_case(ctx: &Ctx, acc: &Acc, bytes: &[u8], local: &mut BTreeSet<u128>) {
     let want = String::from_utf8_lossy(bytes);
-    let nrep = want.matches('\u{fffd}').count();
+    // one error per maximal ill-formed subsequence (a U+FFFD that is really in the input is not an error)
+    let nrep = bytes.utf8_chunks().filter(|c| !c.invalid().is_empty()).count();
     local.insert(digest(want.as_bytes()));
     acc.strings.fetch_add(1, Ordering::Relaxed);
     for mask in 0..chunk_masks(bytes.len()) {
